@@ -68,6 +68,21 @@ D = {
  "c20-kind-mismatch-equal": ("bucketsEqual no longer distinguishes value from duration specifications", "a value and a duration specification with colliding identities and equal numeric bounds"),
  "c20-cache-recheck-no-equality": ("same idea as c20-cache-lost-race, written independently in round 2", "concurrent creation of two colliding sets"),
  "c20-equal-via-durations": ("bucketsEqual compares AsDurations() of both sides", "value bounds >= 9.22e9 or < 1e-9 (overflow / truncation) or a value vs duration set, with colliding identities"),
+ "c12-calc-reset-after-unlock": ("calculateSize releases the calc lock before resetting the shared counting transport (two defers in the wrong order)", ">= 2 goroutines allocating metrics on one reporter at the same time: a handle is charged less than its wire size"),
+ "c12-keep-buffer-on-refused": ("TUDPTransport.Flush keeps the buffer when the send fails with ECONNREFUSED", "the collector's port closed briefly: one send refused, the next datagram carries two batches (filed under C12; it is a C15 clause and C15's suite is part of C12's check)"),
+ "c12-bucket-placeholder-count-zero": ("AllocateHistogram builds the bucket counter once by hand without the maximal Count placeholder", "Compact protocol and a bucket reporting >= 8192 samples in one interval: the charged size is no longer an upper bound"),
+ "c13-flush-after-every-error": ("the reporter flushes the transport after every failed emit, not only after INVALID_DATA", "several destinations, one of them down: the healthy one receives empty datagrams"),
+ "c14-close-toggle": ("Close uses done.Toggle() instead of CAS(false,true)", "a second Close re-opens the gate: later reports / Flush send on closed channels, a third Close closes a closed channel"),
+ "c14-write-error-into-own-queue-2": ("same idea as c14-write-error-into-own-queue, written independently in round 2", "a send error while the queue is full"),
+ "c15-multi-error-wrapped": ("TMultiUDPTransport wraps the first error with fmt.Errorf", ">= 2 destinations and one oversize batch: the reporter no longer recognises INVALID_DATA, never discards, every later batch is refused"),
+ "c15-close-flag-after-conn-close": ("TUDPTransport.Close sets the closed flag only after conn.Close succeeded", "a socket already dead (closed through Conn()): Close keeps failing, IsOpen stays true, writes buffer silently"),
+ "c16-calc-counts-runes": ("TCalcTransport.WriteString counts runes instead of bytes", "a name / tag containing valid multi-byte UTF-8"),
+ "c17-canonical-id-underscore": ("canonicalMetricID joins name and sorted keys with '_'", "names / keys whose underscores line up: replication_lag{dc_zone} vs replication_lag{dc,zone}: cache hit with the wrong vector, With() panics"),
+ "c17-countervec-outside-lock": ("same idea as c17-register-outside-lock (counter only), written independently in round 2", "two first users of one counter family at the same time"),
+ "c18-shared-name-buffer": ("bucket stat names are built in a scratch buffer shared by the reporter", "two goroutines reporting histograms through one reporter at the same time"),
+ "c18-negative-gauge-zeroed-first": ("same idea as c18-negative-gauge-two-calls, written independently in round 2", "a gauge value <= -1"),
+ "c19-flush-coalesced": ("overlapping Flush calls on a multi reporter are coalesced by a CAS flag", "a Flush arriving while another Flush is inside a child: it calls no child at all"),
+ "c19-capabilities-break-on-nonreporting": ("Capabilities() stops at the first non-reporting child", "a non-reporting but tagging child before a non-tagging child"),
 }
 n = 0
 for sid, (what, needs) in D.items():
